@@ -100,7 +100,8 @@ func runBehaviour(w World, id int, steps []Step) *Mismatch {
 		}
 		sort.Strings(keys)
 		if want, ok := st["res"]; ok && mm == nil {
-			if ws := fmt.Sprint(want); ws != "free" && got["res"] != ws {
+			alt := st.Str("alt") // a second acceptable result where the statement can be read in two ways (spec: ReqSeq)
+			if ws := fmt.Sprint(want); ws != "free" && got["res"] != ws && (alt == "" || got["res"] != alt) {
 				mm = &Mismatch{id, w.Name(), i, st.Str("op"), "res", ws, got["res"]}
 				break
 			}
